@@ -161,7 +161,11 @@ fn alphabet3() -> Vec<[f64; 6]> {
     vec![[0.0; 6], [0.01, -0.02, 0.005, 0.002, -0.003, 0.001], [-0.02, 0.01, 0.0, -0.001, 0.002, 0.004], [0.4, 0.3, 0.5, 0.1, -0.2, 0.3], [-1.0, 2.0, -1.2, 1.0, 0.5, -2.0]]
 }
 
+/// History length: 3 in the quick tier, 4 in the thorough tier and in replays
+static DEEP: std::sync::atomic::AtomicBool = std::sync::atomic::AtomicBool::new(false);
+
 fn histories(m: usize) -> Vec<Vec<usize>> {
+    let deep = DEEP.load(std::sync::atomic::Ordering::Relaxed);
     let mut h: Vec<Vec<usize>> = vec![vec![]];
     for a in 0..m {
         h.push(vec![a]);
@@ -169,6 +173,11 @@ fn histories(m: usize) -> Vec<Vec<usize>> {
             h.push(vec![a, b]);
             for c in 0..m {
                 h.push(vec![a, b, c]);
+                if deep {
+                    for d in 0..m {
+                        h.push(vec![a, b, c, d]);
+                    }
+                }
             }
         }
     }
@@ -467,8 +476,9 @@ pub fn cases(tier: Tier) -> Vec<Case> {
 
 pub fn run(tier: Tier) -> i32 {
     let mut cx = Ctx::new("C07", tier, "model_checking");
-    cx.rule = "MC: every set_params history of length <= 3 over a 5-vector alphabet (start, two small, two large moves) of the private 2D points-to-curve problem (3 reference curves x 2 initial guesses) and the 3D points-to-mesh problem (2 meshes x 2 distance modes), each compared with a fresh problem whose history is just the last element, residuals recomputed by brute force. EX: recovery of every displacement of the stated basin (2D: {-.05,0,.05}^2 x {0,+-3,+-10 deg}; 3D: {-.1,0,.1}^3 x {0, +-2 deg about x, y, z, (1,1,1)}; at most 5% of the smallest feature) x 2 initial guesses x sample densities x both DistModes on rectangle / L-shape / pentagon and box / L-prism; out-of-basin starts (25-40 deg) judged for residual honesty only; 'turned parts': displacements of 60-170 deg (2D) / 1.2-3 rad (3D) with translations, started from a guess within the basin of the exact answer, must be recovered. distinct = distinct cases".into();
-    cx.bounds = json!({"history_len": 3, "alphabet": 5, "shifts2": shifts2().len(), "shifts3": shifts3().len(), "shifts3_subsampling": tier.pick(3, 1)});
+    cx.rule = "MC: every set_params history of length <= 3 (thorough: 4) over a 5-vector alphabet (start, two small, two large moves) of the private 2D points-to-curve problem (3 reference curves x 2 initial guesses) and the 3D points-to-mesh problem (2 meshes x 2 distance modes), each compared with a fresh problem whose history is just the last element, residuals recomputed by brute force. EX: recovery of every displacement of the stated basin (2D: {-.05,0,.05}^2 x {0,+-3,+-10 deg}; 3D: {-.1,0,.1}^3 x {0, +-2 deg about x, y, z, (1,1,1)}; at most 5% of the smallest feature) x 2 initial guesses x sample densities x both DistModes on rectangle / L-shape / pentagon and box / L-prism; out-of-basin starts (25-40 deg) judged for residual honesty only; 'turned parts': displacements of 60-170 deg (2D) / 1.2-3 rad (3D) with translations, started from a guess within the basin of the exact answer, must be recovered. distinct = distinct cases".into();
+    DEEP.store(tier == Tier::Thorough, std::sync::atomic::Ordering::Relaxed);
+    cx.bounds = json!({"history_len": tier.pick(3, 4), "alphabet": 5, "shifts2": shifts2().len(), "shifts3": shifts3().len(), "shifts3_subsampling": tier.pick(3, 1)});
     cx.require(&["2D set_params history", "3D set_params history", "2D displacement inside the basin", "2D start outside the basin", "3D plane mode inside the basin", "3D point mode inside the basin", "3D start outside the basin", "2D turned part, guess near the answer", "3D turned part, guess near the answer", "3D open bracket, samples sliding off free edges", "2D result with residuals of both signs"]);
     cx.assume("basin: translations up to 5% of the smallest feature, rotations up to 10 deg (2D) / 2 deg (3D), guesses within 2 deg / 0.1; recovery judged at 1e-6 on matrix entries; plane-mode residuals may use any minimising face");
     let cs = cases(tier);
@@ -483,6 +493,7 @@ pub fn run(tier: Tier) -> i32 {
 pub fn replay(case: &Val) -> Local {
     let c: Case = serde_json::from_value(case.clone()).expect("case");
     let mut l = Local::new();
+    DEEP.store(true, std::sync::atomic::Ordering::Relaxed);
     judge(&c, &mut l);
     l
 }
